@@ -787,7 +787,7 @@ def gen_input(rng, sc, version=None, p_damage=0.5, max_faults=3, kinds=None):
 
 def import_scenario(rng):
     """Root grammar + imported files (chain or diamond) + optional .pge."""
-    shape = rng.choice(["chain", "diamond"])
+    shape = rng.choice(["chain", "diamond", "cycle"])
     ops_v = [("+", "*"), ("+", "*", "-"), ("*", "+")]
 
     def base_pg(ops, num_re=r"\d+", reorder=False):
@@ -810,6 +810,30 @@ def import_scenario(rng):
             files(root0, base_pg(ops_v[0], num_re=r"\d+(\.\d+)?")),
         ]
         edits = {1: ["base.pg"], 2: ["base.pg"], 3: ["g.pg"], 4: ["base.pg"], 5: ["base.pg"]}
+    elif shape == "cycle":
+        root = "import 'items.pg' as i;\nProg: i.Item+[semi];\nterminals\nsemi: ';';\n"
+        root2 = "import 'items.pg' as i;\nProg: i.Item+[semi] semi?;\nterminals\nsemi: ';';\n"
+        items = ("import 'expr.pg' as e;\nItem: 'let' e.E | 'blk' '{' Item* '}';\n")
+        items2 = ("import 'expr.pg' as e;\nItem: 'let' e.E | 'ret' e.E | 'blk' '{' Item* '}';\n")
+
+        def expr_pg(ops, reorder=False):
+            alts = [f"E '{op}' E {{left, {i + 1}}}" for i, op in enumerate(ops)]
+            alts += ["'[' i.Item ']'", "num"]  # recursive reference through the import cycle
+            if reorder:
+                alts.reverse()
+            return ("import 'items.pg' as i;\nE: " + "\n | ".join(alts)
+                    + ";\nterminals\nnum: /\\d+/;\n")
+
+        files = lambda r, it, ex: {"g.pg": r, "items.pg": it, "expr.pg": ex}  # noqa
+        versions = [
+            files(root, items, expr_pg(ops_v[0])),
+            files(root, items, expr_pg(ops_v[1])),
+            files(root, items2, expr_pg(ops_v[0])),
+            files(root2, items, expr_pg(ops_v[0])),
+            files(root, items, expr_pg(ops_v[0], reorder=True)),
+            files(root, items, expr_pg(ops_v[2])),
+        ]
+        edits = {}
     else:
         root = ("import 'left.pg' as l;\nimport 'right.pg' as r;\n"
                 "Prog: Item+[semi];\nItem: l.L | r.R;\nterminals\nsemi: ';';\n")
@@ -841,6 +865,16 @@ def import_scenario(rng):
             if rng.random() < 0.2:
                 s += "; ret"
         probes.append(s)
+    if shape == "cycle":
+        probes = []
+        for _ in range(10):
+            cexprs = ["1", "1 + 2", "1 + 2 * 3", "2 * 3 + 4", "[let 1]", "[ blk { let 2 } ] + 1",
+                      "[ret 3] * 2", "1 - 2", "1 2", "1 +", "2 * [let 3 + 4] * 5", "1 * 2 - 3"]
+            es = [rng.choice(cexprs) for _ in range(rng.randint(1, 3))]
+            probes.append("; ".join(rng.choice(["let ", "ret ", "let ", ""]) + e for e in es)
+                          + (";" if rng.random() < 0.3 else ""))
+        if rng.random() < 0.5:
+            probes.append("blk { let 1 let 2 * 3 }")
     if shape == "chain":
         pge = ("1 + + 2\n:::+\nAfter an operator an operand must follow.\n\n=====\n"
                "(1 + 2\n:::\nMissing closing parenthesis\n\n=====\n"
